@@ -736,11 +736,19 @@ type c01Tail struct {
 	errc   chan error
 	cancel context.CancelFunc
 	id     int
+	// committed: a committed reader; it owes deliveries only up to the HW
+	committed bool
 }
 
 // parked reports whether the reader goroutine is blocked waiting for data at
 // the end of the log (registered as a waiter of a segment).
 func (c *c01Tail) parked(l *commitLog) bool {
+	if c.committed {
+		l.mu.RLock()
+		_, ok := l.hwWaiters[c.r.ctxReader]
+		l.mu.RUnlock()
+		return ok
+	}
 	ur, ok := c.r.ctxReader.(*uncommittedReader)
 	if !ok {
 		return false
@@ -763,7 +771,7 @@ func (c *c01Tail) parked(l *commitLog) bool {
 func TestVerifC01Tail(t *testing.T) {
 	rep := kit.NewReport("C01", "tail")
 	defer rep.Write()
-	rep.SetRule("seeded programs over {append batch 1..5, replicated message set, truncate (mid-segment / segment base / last / newest+1), explicit roll check} with 1-3 tail-following uncommitted readers; before every append each reader is observed parked in a segment's waiter map, after it each must deliver exactly the appended messages in order (a wrong offset is a violation at once; a reader that delivers nothing within the watchdog is inconclusive); readers positioned beyond a truncation point are replaced; non-trivial = program truncated mid-segment and then rolled while a reader was parked; distinct = program text + segment size")
+	rep.SetRule("seeded programs over {append batch 1..5, replicated message set, truncate (mid-segment / segment base / last / newest+1), explicit roll check} with 1-4 tail-following readers (uncommitted, and committed ones opened at any offset up to HW+1 — also while nothing is committed — that owe deliveries up to the HW; HW moved by one, a few, or to the log end in one step across several segment boundaries); before every append / HW move each reader is observed parked (segment waiter map resp. hwWaiters), after it each must deliver exactly the appended resp. newly committed messages in order (a wrong offset is a violation at once; a reader that delivers nothing within the watchdog is inconclusive); readers positioned beyond a truncation point are replaced; non-trivial = program truncated mid-segment and then rolled while a reader was parked, or moved the HW across >=2 segment boundaries in one step while a committed reader waited at HW+1; distinct = program text + segment size")
 	root := kit.NewRNG(kit.Mix(kit.Seed(), 0xC017))
 	nprog := kit.Scale(120, 1500)
 	seeds := make([]uint64, nprog)
@@ -784,16 +792,16 @@ func TestVerifC01Tail(t *testing.T) {
 		}
 		var tails []*c01Tail
 		nextID := 0
-		newTail := func(start int64) {
-			r, err := c.log.NewReader(start, true)
+		newTail := func(start int64, committed bool) {
+			r, err := c.log.NewReader(start, !committed)
 			if err != nil {
 				if start < c.next() {
-					c.fail("C01:reader-open", fmt.Sprintf("NewReader(%d, uncommitted) failed: %v", start, err))
+					c.fail("C01:reader-open", fmt.Sprintf("NewReader(%d, uncommitted=%v) failed: %v", start, !committed, err))
 				}
 				return
 			}
 			ctx, cancel := context.WithCancel(context.Background())
-			tl := &c01Tail{r: r, next: start, out: make(chan vfRec, 64), errc: make(chan error, 1), cancel: cancel, id: nextID}
+			tl := &c01Tail{r: r, next: start, out: make(chan vfRec, 64), errc: make(chan error, 1), cancel: cancel, id: nextID, committed: committed}
 			nextID++
 			go func() {
 				hb := make([]byte, 28)
@@ -826,12 +834,22 @@ func TestVerifC01Tail(t *testing.T) {
 		// drain: each tail must deliver model[next:], in order
 		drain := func(phase string) {
 			for _, tl := range tails {
-				for tl.next < c.next() && !c.failed {
+				limit := func() int64 {
+					if tl.committed {
+						return c.hw + 1
+					}
+					return c.next()
+				}
+				for tl.next < limit() && !c.failed {
 					select {
 					case rec := <-tl.out:
 						want := c.model[tl.next]
 						if rec.Off != want.Off {
-							c.fail("C01:tail-reader-skipped-or-repeated", fmt.Sprintf("%s: tail reader #%d (parked at the log end before the append) delivered offset %d, expected %d", phase, tl.id, rec.Off, want.Off))
+							kind := "tail reader"
+							if tl.committed {
+								kind = "committed tail reader"
+							}
+							c.fail("C01:tail-reader-skipped-or-repeated", fmt.Sprintf("%s: %s #%d (parked at the log end / waiting for the HW before) delivered offset %d, expected %d", phase, kind, tl.id, rec.Off, want.Off))
 							return
 						}
 						if !bytes.Equal(rec.Val, want.Val) || rec.TS != want.TS || rec.Epoch != want.Epoch {
@@ -854,7 +872,7 @@ func TestVerifC01Tail(t *testing.T) {
 		waitParked := func() {
 			for _, tl := range tails {
 				ok := false
-				for i := 0; i < 4000; i++ {
+				for i := 0; i < 600; i++ {
 					if tl.parked(c.log) {
 						ok = true
 						break
@@ -863,16 +881,53 @@ func TestVerifC01Tail(t *testing.T) {
 				}
 				if ok {
 					rep.Count("tail_readers_observed_parked", 1)
+				} else if tl.committed {
+					rep.Count("committed_tail_readers_not_seen_parked", 1)
+				} else {
+					rep.Count("tail_readers_not_seen_parked", 1)
 				}
 			}
 		}
-		midTrunc, rolledAfter := false, false
+		midTrunc, rolledAfter, hwJump := false, false, false
 		nops := rng.Range(8, 26)
 		c.step(c01Op{Kind: "A", N: 3})
-		newTail(int64(rng.Intn(3)))
+		newTail(int64(rng.Intn(3)), false)
+		if rng.Bool() {
+			// a committed reader opened while nothing is committed yet
+			newTail(0, true)
+		}
 		drain("initial")
 		for i := 0; i < nops && !c.failed; i++ {
-			switch x := rng.Intn(100); {
+			switch x := rng.Intn(115); {
+			case x >= 100:
+				// move the HW (by one, by a few, or to the end in one step) while
+				// committed tail readers wait for it
+				if c.next()-1 <= c.hw {
+					continue
+				}
+				waitParked()
+				h := c.next() - 1
+				if rng.Bool() {
+					h = c.hw + 1 + int64(rng.Intn(int(c.next()-1-c.hw)))
+				}
+				crossed := 0
+				for _, s := range c.log.Segments() {
+					if s.BaseOffset > c.hw+1 && s.BaseOffset <= h {
+						crossed++
+					}
+				}
+				ncommitted := 0
+				for _, tl := range tails {
+					if tl.committed && tl.next == c.hw+1 {
+						ncommitted++
+					}
+				}
+				if crossed >= 2 && ncommitted > 0 {
+					hwJump = true
+					rep.Count("hw_jumps_over_2+_segment_boundaries_with_a_waiting_committed_reader", 1)
+				}
+				c.step(c01Op{Kind: "H", Arg: h})
+				drain("after-hw-advance")
 			case x < 45:
 				waitParked()
 				segs := len(c.log.Segments())
@@ -913,13 +968,18 @@ func TestVerifC01Tail(t *testing.T) {
 				tails = keep
 				for k := 0; k < replaced; k++ {
 					if c.next() > 0 {
-						newTail(c.next() - int64(rng.Intn(2)))
+						newTail(c.next()-int64(rng.Intn(2)), false)
 					}
 				}
 				drain("after-truncate")
 			case x < 92:
-				if len(tails) < 3 && c.next() > 0 {
-					newTail(int64(rng.Intn(int(c.next()))))
+				if len(tails) < 4 && c.next() > 0 {
+					if rng.Bool() {
+						newTail(int64(rng.Intn(int(c.next()))), false)
+					} else {
+						// committed: anywhere up to HW+1 (HW+1 = wait for the next commit)
+						newTail(int64(rng.Intn(int(c.hw)+2)), true)
+					}
 					drain("new-reader")
 				}
 			default:
@@ -933,7 +993,7 @@ func TestVerifC01Tail(t *testing.T) {
 			tl.cancel()
 		}
 		rep.Eval()
-		if midTrunc && rolledAfter {
+		if (midTrunc && rolledAfter) || hwJump {
 			rep.Nontrivial(fmt.Sprintf("%d|%s", maxSeg, strings.Join(c.trace, " ")))
 		}
 		if p < 2 {
